@@ -151,7 +151,7 @@ def gen_kv(rng):
     for _ in range(rng.randint(0, 10)):
         r = rng.random()
         if r < 0.15:
-            items.append(["comment", rng.choice([cc + " full line", "   " + cc + "indented", cc])])
+            items.append(["comment", rng.choice([cc + " full line", "   " + cc + "indented", cc, cc + " a = 1 " + cc + " b = 2"])])
         elif r < 0.25:
             items.append(["blank", rng.choice(["", "   ", "\t"])])
         elif r < 0.33:
@@ -163,7 +163,7 @@ def gen_kv(rng):
             v = rng.choice(["v", "1", "", "a%sb" % sep, "x y  z", "val%sue%s" % (sep, sep), "/p/a/th", "é", "true"])
             if sep in k:
                 k = "kz"
-            trail = rng.choice(["", "", "  " + cc + " trailing comment", cc + "c"])
+            trail = rng.choice(["", "", "  " + cc + " trailing comment", cc + "c", " " + cc + " note " + cc + " again", cc + cc])
             lead = rng.choice(["", "", "  ", "\t"])
             sp = rng.choice(["", " ", "  "]) if sep.strip() else ""
             items.append(["pair", k, v, lead, sp, trail])
